@@ -73,7 +73,7 @@ Print Assumptions C09_roles_linked.
 
 (** (6) a caveat on (4), found while lifting it to the composed model: its diffuse hypothesis
     quantifies over ALL table indices, and a table given by lists returns 0 beyond its end --
-    so the hypothesis only admits reflectance 0.  (4) is therefore restated in (7) with the
+    so the hypothesis only allows reflectance 0.  (4) is therefore restated in (7) with the
     hypotheses restricted to what the model reads. *)
 From SV Require Import Proofs.ReciprocityVis.
 Theorem C09_model_diffuse_everywhere_forces_zero {T} {O : Ops T} (sc : @scene T) b (rho : nat -> T) :
